@@ -45,7 +45,13 @@ def stat_first(v):
     return float(v[0])
 
 
-STAT_FN = {"StSum": stat_sum, "StMax": stat_max, "StMin": stat_min, "StLen": stat_len, "StFirst": stat_first}
+def stat_second_largest(v):
+    """axis-sensitive: sorts the segment as a 1-D sample"""
+    w = np.sort(v)[::-1]
+    return float(w[1] if len(w) > 1 else w[0])
+
+
+STAT_FN = {"StSum": stat_sum, "StMax": stat_max, "StMin": stat_min, "StLen": stat_len, "StFirst": stat_first, "StSecondLargest": stat_second_largest}
 
 
 def run(ctx):
